@@ -33,13 +33,25 @@ func (g *Gen) vtype() *TyDef {
 	case 5, 6, 7:
 		return B(uintKinds[g.r.Intn(5)])
 	case 8:
-		return named(g.r.Pick("MyInt", "MyInt8", "MyU16", "MyU64", "MyBool"))
+		return named(g.r.Pick("MyInt", "MyInt8", "MyI16", "MyI32", "MyI64", "MyU8", "MyU16", "MyU32", "MyU64", "MyUint", "MyBool"))
 	case 9:
 		return Ptr(B(intKinds[g.r.Intn(5)]))
 	case 10:
 		return Ptr(B(g.r.Pick("bool", "uint8", "uint64")))
 	}
 	return B("int")
+}
+
+// vtypeElem: a varint-kind slice element. ([]MyU8 would be a byte-kinded slice
+// that is not []byte; MyU8 is generated only outside slices.)
+func (g *Gen) vtypeElem() *TyDef {
+	for {
+		t := g.vtype()
+		if t.K == "named" && t.Name == "MyU8" {
+			continue
+		}
+		return t
+	}
 }
 
 func (g *Gen) ftype() *TyDef {
@@ -114,18 +126,18 @@ func (g *Gen) keyType(depth int) *TyDef {
 func (g *Gen) sliceType(depth int, field bool) *TyDef {
 	switch g.r.Intn(8) {
 	case 0, 1:
-		return Slice(g.vtype())
+		return Slice(g.vtypeElem())
 	case 2:
 		f := g.ftype()
 		return Slice(f)
 	case 3:
 		// slice of packed slices: [][]int, [][]float64, [][]byte
 		if g.proto && !field {
-			return Slice(g.vtype())
+			return Slice(g.vtypeElem())
 		}
 		switch g.r.Intn(3) {
 		case 0:
-			return Slice(Slice(g.vtype()))
+			return Slice(Slice(g.vtypeElem()))
 		case 1:
 			return Slice(Slice(g.ftype()))
 		}
@@ -135,7 +147,7 @@ func (g *Gen) sliceType(depth int, field bool) *TyDef {
 	}
 	// slice of length-delimited elements: WTSlice form, or repeated form under proto
 	if g.proto && !field {
-		return Slice(g.vtype()) // ProtoSliceWrapper outside a field: known finding D10
+		return Slice(g.vtypeElem()) // ProtoSliceWrapper outside a field: known finding D10
 	}
 	if g.r.P(10) {
 		return named("MyStrs")
